@@ -15,7 +15,7 @@ RULE = ("IntervalSet: sets of 1..5 intervals whose metadata rows are recoverable
         "and string column labels, tags embedded in the column data; positional, mask, label, loc, metadata-Series column selection, row "
         "selection, restrict, get, arithmetic, numpy functions, groupby.  TsGroup: tags embedded in the first spike; key lists, masks, "
         "getby_*, restrict, get, merge (interleaved keys), metadata-Series selection.  distinct = distinct (object, expression)")
-PROVED = ("new_rows_faithful (constructor keeps metadata only when it emitted every pair in place), getIdx_rows, intersect_rows, diff_rows, union_drops, "
+PROVED = ("new_rows_faithful (constructor keeps metadata only when it emitted every pair in place), getIdx_rows, intersect_rows, diff_rows, split_rows (each piece of ep.split(size) lies inside the interval whose row it carries), union_drops, "
           "fixLoopW_fst/_unchanged, loc_sound, iloc_sound, loc_eq_iloc (loc = iloc on the 0..n-1 index), reset_index")
 NOT_PROVED = ("split parents (model correspondence + containment oracle), TsdFrame column / TsGroup member metadata (tagged-data "
               "oracle; the model part is loc_sound), save/load of metadata (C11)")
